@@ -295,6 +295,10 @@ def run(ck):
                   "not memoised and do not return a stored container (editing an exported form in place - "
                   "the documented way to modify an interval - must not change what other exports return)",
                   'M0', 2)
+    with ck.section('R13.5w'):
+        from rules.shared import weekdays_run
+        weekdays_run(ck, R5)
+
     with ck.section('R13.3c'):
         for fid in (f"{TI}:export_dt", f"{TI}:_Interval.as_list"):
             fi = prog.func(fid)
